@@ -277,6 +277,19 @@ def fmt_atom(a):
     return repr(a)
 
 
+def _match_form(a):
+    """atoms that say the same thing in two spellings are matched in one form: `xs.first()` is Some exactly when 1 <= len(xs)
+    (`let [first, ..] = xs else`), None exactly when len(xs) == 0"""
+    if a[0] in ('succ', 'fail') and isinstance(a[1], str) and a[1].endswith("['first']") and a[1].count('[') == 1:
+        x = a[1][:-len("['first']")]
+        return ('cmp', 'Le', '1', 'len(%s)' % x) if a[0] == 'succ' else ('cmp', 'Eq', '0', 'len(%s)' % x)
+    return a
+
+
+def _match_ctx(c):
+    return tuple(sorted((_match_form(x) for x in c), key=repr))
+
+
 def compare_table(ctx, rule, fnkey, body, expected, allowed_extra=()):
     """expected: list of (ctx atoms tuple, atom).  Reports one obligation per expected atom and one per extra."""
     rep = ctx.rep
@@ -295,7 +308,8 @@ def compare_table(ctx, rule, fnkey, body, expected, allowed_extra=()):
             alts = [(tuple(sorted(c2, key=repr)), a2) for (c2, a2) in eatom[1]]
             ectx, eatom = alts[0]
             key = '%s/%s/%s' % (rule, fnkey, fmt_atom((ectx, eatom)))
-        hit = [i for i, (c, a, r) in enumerate(actual) if (c, a) in alts]
+        nalts = [(_match_ctx(c2), _match_form(a2)) for (c2, a2) in alts]
+        hit = [i for i, (c, a, r) in enumerate(actual) if (c, a) in alts or (_match_ctx(c), _match_form(a)) in nalts]
         if hit:
             bad = [i for i in hit if actual[i][2]['eff'] == 'bypass']
             good = [i for i in hit if actual[i][2]['eff'] != 'bypass']
